@@ -57,6 +57,7 @@ fn main() {
         "c18-interleave" => conc::drive_interleave(&mut *out, seed, thorough),
         "c18-schedules" => conc::run_sys_schedules(&mut *out, arg(&args, "--script").expect("--script"), seed),
         "c18-cold" => conc::drive_cold(&mut *out, arg(&args, "--threads").map(|t| t.parse().unwrap()).unwrap_or(8), seed),
+        "c18-hot" => conc::drive_hot(&mut *out, arg(&args, "--threads").map(|t| t.parse().unwrap()).unwrap_or(8), arg(&args, "--iters").map(|t| t.parse().unwrap()).unwrap_or(100), seed),
         "tf-vectors" => tf::drive_tf_vectors(&mut *out, arg(&args, "--script").expect("--script"), arg(&args, "--cfg").unwrap_or("?")),
         "tf" => tf::drive_tf(&mut *out, seed, thorough, arg(&args, "--cfg").unwrap_or("?")),
         "stream-end64" => chacha::drive_end64(&mut *out, seed, thorough),
